@@ -147,6 +147,7 @@ type shape struct {
 	rewards bool
 	ubdV2   bool // (with two delegations) also an unbonding entry on V2, created in the same block as the first one on V1
 	redRed  bool // a second redelegation entry (same validators, one block later)
+	exit    bool // finally the source undelegates everything it still has: no delegation is left, only unbonding (and redelegation) entries
 }
 
 func (s shape) String() string {
@@ -156,6 +157,9 @@ func (s shape) String() string {
 	}
 	if s.redRed {
 		x += "/two-redelegation-entries"
+	}
+	if s.exit {
+		x += "/fully-undelegated"
 	}
 	return fmt.Sprintf("usdt=%v/dels=%d/ubd=%d/shared=%v/red=%v/rewards=%v%s", s.usdt, s.dels, s.ubd, s.shared, s.red, s.rewards, x)
 }
@@ -219,6 +223,18 @@ func (e *env) buildPortfolio(ctx sdk.Context, s shape, src legacy, other legacy)
 	}
 	if s.rewards {
 		ctx = e.block(ctx, 5*time.Second)
+	}
+	if s.exit {
+		ctx = e.block(ctx, 5*time.Second)
+		dels, _ := w.App.StakingKeeper.GetDelegatorDelegations(ctx, src.Acc(), 100)
+		for _, d := range dels {
+			valAddr, _ := sdk.ValAddressFromBech32(d.ValidatorAddress)
+			val, _ := w.App.StakingKeeper.GetValidator(ctx, valAddr)
+			e.deliverOK(ctx, stakingtypes.NewMsgUndelegate(src.Bech(), d.ValidatorAddress, sdk.NewCoin("FX", val.TokensFromShares(d.Shares).TruncateInt())))
+		}
+		if left, _ := w.App.StakingKeeper.GetDelegatorDelegations(ctx, src.Acc(), 100); len(left) != 0 {
+			panic("c14: the source still has delegations after undelegating everything")
+		}
 	}
 	return ctx
 }
@@ -341,6 +357,13 @@ func run(thorough bool) func(shard, shards int, deadline time.Time) *explore.Res
 		distinct := map[string]bool{}
 		// ---------------- family A: every portfolio shape migrates completely
 		var shapes []shape
+		for dels := 1; dels <= 2; dels++ {
+			for ubd := 0; ubd <= 1; ubd++ {
+				for _, red := range []bool{false, true} {
+					shapes = append(shapes, shape{dels: dels, ubd: ubd, red: red, exit: true})
+				}
+			}
+		}
 		for _, usdt := range []bool{false, true} {
 			for dels := 0; dels <= 2; dels++ {
 				for ubd := 0; ubd <= 2; ubd++ {
@@ -660,7 +683,7 @@ func init() {
 	registry.Register(&registry.Check{
 		ID:    "C14",
 		Level: "model_checking",
-		Rule:  "family A: every source portfolio in {second denom} x {no delegation, V1, V1+V2} x {0,1,2 unbonding entries on V1} x {entry shares / does not share its completion time with another delegator} x {redelegation} x {pending rewards} is built through ordinary messages and migrated to a fresh target; oracles: portfolio(target) after = portfolio(source) before, source empty, validator totals and supply unchanged, all crisis invariants, second migration refused, and a twin run - withdraw, fully undelegate, wait 22 days - gives the migrated target exactly what the un-migrated source gets on a sibling branch. Family B: governance involvement {proposer, depositor, voter} x {deposit period, voting period, ended} x {source, target} x {attempted at once, 13 days later, after governance shortened both periods to one hour, under a 30-day per-type voting period 20 days in}, target with delegation / unbonding / validator operator / already migrated, signature by another key / over the swapped pair / valid for another source and already seen by the node: accepted iff the statement's conditions hold, refusals change no byte. states = distinct configurations",
+		Rule:  "family A: every source portfolio in {second denom} x {no delegation, V1, V1+V2} x {0,1,2 unbonding entries on V1} x {entry shares / does not share its completion time with another delegator} x {redelegation} x {pending rewards} (and the same after the source undelegated everything: no delegation left, only unbonding / redelegation entries) is built through ordinary messages and migrated to a fresh target; oracles: portfolio(target) after = portfolio(source) before, source empty, validator totals and supply unchanged, all crisis invariants, second migration refused, and a twin run - withdraw, fully undelegate, wait 22 days - gives the migrated target exactly what the un-migrated source gets on a sibling branch. Family B: governance involvement {proposer, depositor, voter} x {deposit period, voting period, ended} x {source, target} x {attempted at once, 13 days later, after governance shortened both periods to one hour, under a 30-day per-type voting period 20 days in}, target with delegation / unbonding / validator operator / already migrated, signature by another key / over the swapped pair / valid for another source and already seen by the node: accepted iff the statement's conditions hold, refusals change no byte. states = distinct configurations",
 		Assumptions: []string{"source accounts are legacy secp256k1 accounts whose public key is on record (the module requires it)", "stake unit 100 FX; validators never slashed here"},
 		Jobs: func(tier string) []registry.Job {
 			return []registry.Job{{Name: "portfolios+conditions", Custom: run(tier == "thorough"), Shards: 16}}
